@@ -15,7 +15,7 @@ from ..world import LINEAR, Session, diff, is_contextual, pview, sync_streams, t
 
 ID = "C20"
 LEVEL = "exploration"
-QUICK_RUNS = 960
+QUICK_RUNS = 4000
 RULE = ("Each run draws a mode (reorder 55%, relabel 25%, shift 10%, scale 10%), a policy combination inside the mode's "
         "quantifier, a data regime and a training stream; reorder: drawn permutation and two independent chunkings.")
 EXPECTED_PROBES = ["fault.reorder", "probe.mode.relabel", "probe.mode.shift", "probe.mode.scale",
